@@ -238,3 +238,56 @@ def run(rep: Report, prog: Program, tier: str) -> None:
     if n_lk < 3:
         raise AnalysisError(f"R20.8: only {n_lk} value-returning paths of _lookup_header")
     rep.floor("R20.8", 3)
+
+    rep.rule("R20.9", "the headers that are searched are the response's: _coerce_retry_after hands _lookup_header the exception's own `headers` when it has some, else `exc.response.headers` (requests / httpx shape), and asks for `Retry-After` - decided by value over {headers present / absent} x {response headers present / absent}")
+    cf9 = prog.func(f"{H}:_coerce_retry_after")
+    rep.analysed(cf9.qual)
+    from ..paths import CannotEval as _CE, evaluate as _ev, truth as _tr
+
+    EXC9 = ("param", cf9.positional_params()[0])
+    EH9 = ("pure", "getattr", (EXC9, ("const", "headers"), ("const", None)), ())
+    RESP9 = ("pure", "getattr", (EXC9, ("const", "response"), ("const", None)), ())
+    RH9 = ("pure", "getattr", (RESP9, ("const", "headers"), ("const", None)), ())
+    n9 = 0
+    bad9: set = set()
+    for p in E.paths(cf9):
+        lk = [e for e in p.calls(pure=None) if e.is_repo(":_lookup_header")]
+        if not lk:
+            continue
+        for eh in (None, "EH"):
+            for rh in (None, "RH"):
+                def leaf9(t, eh=eh, rh=rh):
+                    if t == EH9:
+                        return eh
+                    if t == RH9:
+                        return rh
+                    if t == RESP9:
+                        return "RESP"
+                    raise _CE(show(t))
+
+                feasible = True
+                for a, pol, _ in p.conds:
+                    if a in (EH9, RH9):
+                        if bool(leaf9(a)) != pol:
+                            feasible = False
+                if not feasible:
+                    continue
+                n9 += 1
+                rep.instance("R20.9", f"_coerce_retry_after|exc.headers={'set' if eh else 'none'}|response.headers={'set' if rh else 'none'}")
+                hv = lk[0].kwargs.get("headers")
+                try:
+                    got = _ev(hv, leaf9) if hv is not None else "<missing>"
+                except _CE as exc9:
+                    got = f"<{exc9}>"
+                want = eh or rh
+                nm = lk[0].kwargs.get("name")
+                if got == want and nm == ("const", "Retry-After") and len(lk) == 1:
+                    rep.ok("R20.9")
+                elif (eh, rh, str(got)) not in bad9:
+                    bad9.add((eh, rh, str(got)))
+                    rep.fail("R20.9", f"_coerce_retry_after|headers-source|{eh}|{rh}", f"_coerce_retry_after searches {got!r} for {show(nm) if nm else '?'} when exc.headers is {'set' if eh else 'absent'} and exc.response.headers is {'set' if rh else 'absent'}; expected {want!r} and 'Retry-After'", where=cf9.where(), function=cf9.qual, path=p.describe())
+                else:
+                    rep.ok("R20.9")
+    if n9 < 3:
+        raise AnalysisError(f"R20.9: only {n9} header-source combinations reached in _coerce_retry_after")
+    rep.floor("R20.9", 3)
